@@ -229,6 +229,52 @@ def check_attr_defined(run, repo):
                         run.violation('C18-R4', ci.relpath, fi.qualname, bad, '%s does not exist (AttributeError at execute time)' % bad)
     run.instance('C18-R4', 'attribute chains in opcodes', obligations=n, ok=True, sample={'chains': n})
     run.floor('attribute chains', n, 2000)
+    # the same rule inside the processor itself: self.<x> / self.registers.<view>.<field> in ArmV6, self.<view>.<field> in
+    # Registers (the translation walks, exception entry and PSR writers name ~40 register views and ~190 fields)
+    n2 = 0
+    for ci, own, via in ((arm, arm_m, 'registers'), (regs, reg_m, None)):
+        for fi in ci.methods.values():
+            for node in ast.walk(fi.node):
+                if not isinstance(node, ast.Attribute):
+                    continue
+                chain = []
+                e = node
+                while isinstance(e, ast.Attribute):
+                    chain.append(e.attr)
+                    e = e.value
+                chain.reverse()
+                if not (isinstance(e, ast.Name) and e.id == 'self'):
+                    continue
+                bad = None
+                if via is not None:
+                    if chain[0] != via or len(chain) < 2:
+                        if len(chain) == 1 and isinstance(node.ctx, ast.Load):
+                            n2 += 1
+                            if chain[0] not in own:
+                                bad = 'self.%s' % chain[0]
+                        if not bad:
+                            continue
+                    else:
+                        n2 += 1
+                        rest = chain[1:]
+                        if rest[0] not in reg_m:
+                            bad = 'self.registers.%s' % rest[0]
+                else:
+                    rest = chain
+                    n2 += 1
+                    if len(rest) == 1 and isinstance(node.ctx, ast.Load) and rest[0] not in own:
+                        bad = 'self.%s' % rest[0]
+                if not bad and len(rest) == 2:
+                    t = types.get(rest[0])
+                    if t and t[0] == 'obj':
+                        vc = repo.classes.get(t[1])
+                        if vc and rest[1] not in members(vc[0]) | {'value'}:
+                            bad = '%s.%s' % ('self.registers.' + rest[0] if via else 'self.' + rest[0], rest[1])
+                if bad:
+                    run.violation('C18-R4', ci.relpath, fi.qualname, bad,
+                                  '%s does not exist (AttributeError when this path of %s runs)' % (bad, fi.qualname))
+    run.instance('C18-R4', 'attribute chains in ArmV6 / Registers', obligations=n2, ok=True, sample={'chains': n2})
+    run.floor('attribute chains in the processor', n2, 1500)
 
 
 # ---------------------------------------------------------------------------
